@@ -751,6 +751,7 @@ fn c01_one<'u>(
     file: Option<&'u str>,
     mout: &mut Vec<MFrame<'u>>,
     sout: &mut Vec<Fr<'u>>,
+    seen: &mut std::collections::HashSet<u64>,
     acc: &mut Acc,
     size: usize,
     case: &CaseFn<'_>,
@@ -768,12 +769,25 @@ fn c01_one<'u>(
                 )
             });
         }
+        // once per distinct (subject, class, method, result) of this state
+        if !sout.is_empty() && seen.insert(h64(&(i, class, method, sout.len(), sout.iter().map(|f| (f.class.as_ptr() as usize, f.method.as_ptr() as usize, f.line, f.file.map(|x| x.as_ptr() as usize))).collect::<Vec<_>>()))) {
+            acc.observations += 1;
+            if let Some(d) = s.frame_protocol(class, method, line, file, None) {
+                acc.violation(format!("{}:byline:iterator-protocol", LABELS[i]), size, || {
+                    (
+                        format!("remap_frame({:?},{:?},line {}, file {:?}) on {}: {}", class, method, line, file, LABELS[i], d),
+                        case(json!({"kind":"byline","class":class,"method":method,"line":line as u64,"file":file,"subject":LABELS[i]}), json!("every way of consuming the iterator sees the sequence of repeated next()"), json!(d)),
+                    )
+                });
+            }
+        }
     }
 }
 
 fn oracle_c01<'u>(model: &'u Model, uni: &'u Universe, subjects: &[&'u dyn Subj; 3], acc: &mut Acc, size: usize, case: &CaseFn<'_>) {
     let mut mout: Vec<MFrame<'u>> = Vec::new();
     let mut sout: Vec<Fr<'u>> = Vec::new();
+    let mut seen: std::collections::HashSet<u64> = std::collections::HashSet::new();
     let files: [Option<&'static str>; 2] = [None, Some("F.java")];
     for class in &uni.classes {
         for method in uni.all_methods() {
@@ -784,7 +798,7 @@ fn oracle_c01<'u>(model: &'u Model, uni: &'u Universe, subjects: &[&'u dyn Subj;
                     if file.is_some() && line > 200 {
                         continue;
                     }
-                    c01_one(model, subjects, class, method, line, file, &mut mout, &mut sout, acc, size, case);
+                    c01_one(model, subjects, class, method, line, file, &mut mout, &mut sout, &mut seen, acc, size, case);
                 }
             }
         }
@@ -792,19 +806,19 @@ fn oracle_c01<'u>(model: &'u Model, uni: &'u Universe, subjects: &[&'u dyn Subj;
     for class in &uni.classes_other {
         for method in &uni.methods {
             for &line in &uni.lines_short {
-                c01_one(model, subjects, class, method, line, None, &mut mout, &mut sout, acc, size, case);
+                c01_one(model, subjects, class, method, line, None, &mut mout, &mut sout, &mut seen, acc, size, case);
             }
         }
     }
     // names with invisible affixes: one frame query each
     for class in &uni.classes_affixed {
         for method in uni.methods.iter().take(3) {
-            c01_one(model, subjects, class, method, uni.lines_short.last().copied().unwrap_or(1), None, &mut mout, &mut sout, acc, size, case);
+            c01_one(model, subjects, class, method, uni.lines_short.last().copied().unwrap_or(1), None, &mut mout, &mut sout, &mut seen, acc, size, case);
         }
     }
     for method in &uni.methods_affixed {
         for class in uni.classes.iter().take(3) {
-            c01_one(model, subjects, class, method, uni.lines_short.last().copied().unwrap_or(1), None, &mut mout, &mut sout, acc, size, case);
+            c01_one(model, subjects, class, method, uni.lines_short.last().copied().unwrap_or(1), None, &mut mout, &mut sout, &mut seen, acc, size, case);
         }
     }
     // frame files derived from the mapping's own class names
@@ -812,7 +826,7 @@ fn oracle_c01<'u>(model: &'u Model, uni: &'u Universe, subjects: &[&'u dyn Subj;
         for class in &uni.classes {
             for method in &uni.methods {
                 for &line in &uni.lines_short {
-                    c01_one(model, subjects, class, method, line, Some(file), &mut mout, &mut sout, acc, size, case);
+                    c01_one(model, subjects, class, method, line, Some(file), &mut mout, &mut sout, &mut seen, acc, size, case);
                 }
             }
         }
@@ -841,6 +855,18 @@ fn oracle_c03(model: &Model, uni: &Universe, subjects: &[&dyn Subj; 3], acc: &mu
                                 case(json!({"kind":"byparams","class":class,"method":method,"params":params,"subject":lab}), mf_json(exp), fr_json(&sout)),
                             )
                         });
+                    }
+                    if !sout.is_empty() {
+                        acc.observations += 1;
+                        if let Some(d) = s.frame_protocol(class, method, 0, None, Some(params)) {
+                            let lab = if i == 0 { "mapper-noindex" } else { s.label() };
+                            acc.violation(format!("{}:byparams:iterator-protocol", lab), size, || {
+                                (
+                                    format!("remap_frame({:?},{:?},params {:?}) on {}: {}", class, method, params, lab, d),
+                                    case(json!({"kind":"byparams","class":class,"method":method,"params":params,"subject":lab}), json!("every way of consuming the iterator sees the sequence of repeated next()"), json!(d)),
+                                )
+                            });
+                        }
                     }
                 }
             }
